@@ -62,7 +62,9 @@ def routes(cname, M):
         X = sm.SO3(M.copy())
         q = ref.r2q_ref(M)
         U = sm.UnitQuaternion(q)
-        out = [('SO3.mul', lambda p: X * p), ('UnitQuaternion.mul', lambda p: U * p)]
+        # the same rotation held as -q (negative scalar part), as products and turns beyond pi produce it
+        Um = sm.UnitQuaternion(-q, norm=False, check=False)
+        out = [('SO3.mul', lambda p: X * p), ('UnitQuaternion.mul', lambda p: U * p), ('UnitQuaternion(-q).mul', lambda p: Um * p)]
     elif cname == 'SE3':
         X = sm.SE3(M.copy())
         # the dual quaternion is built from the reference quaternion (real = q, dual = t q / 2) so that the
@@ -138,13 +140,14 @@ def single_points(ctx, cname, k, K):
             want = apply_ref(M, p)
             sc = scale(M, p)
             for fname, arg in forms(p):
-                for site, f in R:
+                for rname, f in R:
+                    site = rname.replace('(-q)', '')
                     if not accepts(site, fname):
                         continue
-                    cid = 'C06/%s/%s/p=%s/form=%s/%s' % (cname, gn, pn, fname, site)
+                    cid = 'C06/%s/%s/p=%s/form=%s/%s' % (cname, gn, pn, fname, rname)
                     if not ctx.want(cid):
                         continue
-                    ctx.case(cid, key=(cname, gn, pn, fname, site), trivial=triv)
+                    ctx.case(cid, key=(cname, gn, pn, fname, rname), trivial=triv)
                     Pm = dict(cls=cname, g=gn.split('|')[0], point=pn, form=fname)
                     a = arg.copy() if isinstance(arg, np.ndarray) else arg
                     ok, r = call(f, a)
@@ -159,13 +162,14 @@ def single_points(ctx, cname, k, K):
             A = np.stack(cols, axis=1)
             want = apply_ref(M, A)
             sc = scale(M, A)
-            for site, f in R:
+            for rname, f in R:
+                site = rname.replace('(-q)', '')
                 if site == 'UnitDualQuaternion.mul':
                     continue
-                cid = 'C06/%s/%s/N=%d/%s' % (cname, gn, N, site)
+                cid = 'C06/%s/%s/N=%d/%s' % (cname, gn, N, rname)
                 if not ctx.want(cid):
                     continue
-                ctx.case(cid, key=(cname, gn, 'N', N, site), trivial=triv)
+                ctx.case(cid, key=(cname, gn, 'N', N, rname), trivial=triv)
                 Pm = dict(cls=cname, g=gn.split('|')[0], form='N=%d' % N, N=N)
                 ok, r = call(f, A.copy())
                 if not ok:
